@@ -61,6 +61,8 @@ struct World {
     xscript: RefCell<Vec<(usize, Vec<String>)>>,
     /// number of edge loops run so far in this case (selects the iterator consumer)
     loops: Cell<usize>,
+    /// nodes handed back by Graph::remove are kept alive here (their neighbours still refer to them weakly)
+    keep: RefCell<Vec<N>>,
 }
 
 
@@ -183,6 +185,13 @@ impl<'a> CbState<'a> {
             }
         }
         self.pred.eval(e)
+    }
+    /// forget what the closure has seen so far (between two runs of one search object)
+    fn reset(&self) {
+        self.trace.borrow_mut().clear();
+        self.log.borrow_mut().clear();
+        self.xlog.borrow_mut().clear();
+        self.count.set(0);
     }
     fn tail(&self, show_trace: bool) -> String {
         let mut s = String::new();
@@ -500,9 +509,28 @@ fn exec_graph_step(w: &World, st: &[String]) -> Option<String> {
             let gs = w.graphs.borrow();
             format!("len {} emp {}", gs[gi(&st[1])].len(), gs[gi(&st[1])].is_empty() as u8)
         }),
-        "grem" => guarded(|| match w.graphs.borrow_mut()[gi(&st[1])].remove(&Kt::of(pu64(&st[2]))) {
-            Some(n) => format!("some {}", n.key()),
-            None => "none".to_string(),
+        "grem" => guarded(|| {
+            let removed = w.graphs.borrow_mut()[gi(&st[1])].remove(&Kt::of(pu64(&st[2])));
+            match removed {
+                Some(n) => {
+                    // the handle handed back must be the member itself, with its edges untouched
+                    let out = format!("some {} deg {}", n.key(), deg!(n));
+                    w.keep.borrow_mut().push(n);
+                    out
+                }
+                None => "none".to_string(),
+            }
+        }),
+        // a member that only the container owns: no handle is kept outside (the slot in `nodes` gets an unrelated dummy
+        // so that node indices stay aligned with the model; cases never use that index)
+        "gnn" => guarded(|| {
+            let ok = w.graphs.borrow_mut()[gi(&st[1])].insert(Node::new(Kt::of(pu64(&st[2])), pi64(&st[3])));
+            w.nodes.borrow_mut().push(Node::new(Kt::of(pu64(&st[2])), pi64(&st[3])));
+            format!("ok {}", ok as u8)
+        }),
+        "gsnap" => guarded(|| {
+            let gs = w.graphs.borrow();
+            format!("gsnap {}", graph_snap(&gs[gi(&st[1])]))
         }),
         "gvec" => guarded(|| {
             let gs = w.graphs.borrow();
@@ -681,7 +709,7 @@ fn exec_any(w: &World, st: &[String]) -> String {
 }
 
 pub fn run_case(case: &Case, sink: &mut dyn FnMut(usize, String)) {
-    let w = World { nodes: RefCell::new(Vec::new()), graphs: RefCell::new(Vec::new()), threads: RefCell::new(Vec::new()), script: RefCell::new(Vec::new()), xscript: RefCell::new(Vec::new()), loops: Cell::new(0) };
+    let w = World { nodes: RefCell::new(Vec::new()), graphs: RefCell::new(Vec::new()), threads: RefCell::new(Vec::new()), script: RefCell::new(Vec::new()), xscript: RefCell::new(Vec::new()), loops: Cell::new(0), keep: RefCell::new(Vec::new()) };
     for (si, st) in case.steps.iter().enumerate() {
         // `only:<flavour>` restricts a step to one flavour (API not common to the twins)
         let mut st: &[String] = st;
@@ -808,6 +836,9 @@ fn run_search(w: &World, st: &[String]) -> String {
                 ($first:expr, $second:expr) => {{
                     let first = $first;
                     if let Some(op) = then_op {
+                        // each run reports what its closure saw; the second run starts with a clean record
+                        let first = format!("{}{}", first, cbs.tail(meth != Meth::None));
+                        cbs.reset();
                         if op[0] == "retarget" {
                             b = b.target(&retarget_key);
                         } else {
@@ -884,6 +915,8 @@ fn run_search(w: &World, st: &[String]) -> String {
             }
             let first = once!();
             if let Some(op) = then_op {
+                let first = format!("{}{}", first, cbs.tail(meth != Meth::None));
+                cbs.reset();
                 let _ = exec_node_step(w, op);
                 let second = once!();
                 format!("{} THEN {}", first, second)
